@@ -28,9 +28,10 @@ REGISTRY: Dict[str, 'ContractInfo'] = {}
 
 
 class ContractInfo:
-    def __init__(self, pycls, target, props, name, use_at_calls, bounded, const=None):
+    def __init__(self, pycls, target, props, name, use_at_calls, bounded, const=None, assumed=None):
         self.pycls, self.target, self.props, self.name = pycls, target, tuple(props), name or pycls.__name__
         self.const = const          # data invariant on a module constant (target is None)
+        self.assumed = assumed      # text of the assumption: the contract is used at call sites but NOT verified (trusted)
         self.kind = 'function' if target else ('const' if const else 'lemma')
         self.use_at_calls = use_at_calls
         self.bounded = bounded
@@ -41,9 +42,9 @@ class ContractInfo:
         return name in vars(self.pycls)
 
 
-def contract(target: str, props=(), name=None, use_at_calls=None, bounded=None, const=None):
+def contract(target: str, props=(), name=None, use_at_calls=None, bounded=None, const=None, assumed=None):
     def deco(pycls):
-        ci = ContractInfo(pycls, target, props, name, use_at_calls, bounded, const)
+        ci = ContractInfo(pycls, target, props, name, use_at_calls, bounded, const, assumed)
         key = ci.name
         if key in REGISTRY:
             raise RuntimeError(f'duplicate contract name {key}')
@@ -99,7 +100,7 @@ class SymFactory:
         bad = self._reg(f'{name}.!bad', z3.Bool(f'{name}.!bad')) if may_be_bad else False
         return SSet(cls, bits, kind, bad)
 
-    def str_sym(self, name):
+    def str_sym(self, name, corpus=None):
         v = self._reg(name, z3.String(name))
         return SStr([('sym', v)])
 
@@ -180,8 +181,12 @@ class ConcreteFactory:
             return tuple(out)
         return set(out)
 
-    def str_sym(self, name):
-        return str(self._get(name, lambda: ''))
+    def str_sym(self, name, corpus=None):
+        def d():
+            if corpus and self.rng is not None:
+                return self.rng.choice(list(corpus))
+            return corpus[0] if corpus else ''
+        return str(self._get(name, d))
 
     def new(self, cls, fields, ctor=None):
         if ctor is not None:
@@ -206,7 +211,7 @@ class Registry:
         self.index = index
         self.by_target: Dict[str, ContractInfo] = {}
         for ci in REGISTRY.values():
-            if ci.target and ci.use_at_calls is not False and (ci.has('model') or ci.has('result')):
+            if ci.target and ci.use_at_calls is not False and (ci.has('model') or ci.has('result') or ci.assumed):
                 if ci.target in self.by_target and ci.use_at_calls is None:
                     continue
                 self.by_target[ci.target] = ci
@@ -262,4 +267,6 @@ class Registry:
                     I.raise_py(exc)
         if ci.has('model'):
             return self.call_clause(I, ci, 'model', values)
-        return self.call_clause(I, ci, 'result', values)
+        if ci.has('result'):
+            return self.call_clause(I, ci, 'result', values)
+        return None
